@@ -1,10 +1,113 @@
 (* Property C07: slogdet / logdet equal the determinant's phase and log-magnitude.
-   Only statements closed by [exact]; the lemmas live in C07_*.v. *)
-From Coq Require Import List Arith Bool.
+   Only statements closed by [exact]; the lemmas live in C07_*.v.
+   Reading guide.  [slogdet D fl alg e] is the model of cola.linalg.slogdet on a decorated operator tree e
+   (C07_Slogdet.v): D = carriers of phases/magnitudes (V) and of logabs (L) with abstract exp/log; fl = the recorded
+   defect flags (all_fixed = none); alg = Auto | Cholesky | LU | Lanczos/Arnoldi.  [ev D (s, l)] = s * exp l.
+   [valid ... alg e] = the tree is well-formed, non-singular (non-zero pivots / scalars / diagonal entries,
+   permutations are permutations) and the LAPACK / Krylov answers decorating the base-case nodes which the selected
+   algorithm reads satisfy their specifications (P L U = A with L, U triangular; L L^H = A; exp(trace log A) = det A). *)
+From Coq Require Import List Arith Bool ZArith.
 From mathcomp Require Import all_ssreflect all_algebra.
-From Core Require Import Base Kron Op C07_DetLaws C07_MxBridge.
+From Core Require Import Base Kron Op FieldBase C07_DetLaws C07_MxBridge C07_Slogdet C07_Proofs C07_Field C07_Exec C07_Refute C07_MxFinal.
+Import GRing.Theory Num.Theory.
+Local Open Scope ring_scope.
 
-(* mathcomp's determinant satisfies the interface the C07 development is built on, over every commutative ring *)
+(* 1. mathcomp's determinant satisfies the interface the development is built on, over every commutative ring *)
 Theorem C07_mathcomp_det_laws : forall R : comRingType, @DetLaws R (mcRing R) (mxdet R).
 Proof. exact mx_DetLaws. Qed.
 Print Assumptions C07_mathcomp_det_laws.
+
+(* 2. from the interface alone: det (A (x) B) = det(A)^n det(B)^m  (the law behind the Kronecker rule) *)
+Theorem C07_det_kron : forall (R : Type) (RR : Ring R) (fdet : nat -> fm (R:=R) -> R), DetLaws fdet ->
+  forall m n A B, fdet (m * n)%nat (kron n n A B) = (rpow (fdet m A) n * rpow (fdet n B) m)%R.
+Proof. exact (@fdet_kron). Qed.
+Print Assumptions C07_det_kron.
+
+(* 3. from the interface alone: a permutation matrix has determinant = the parity computed by sorting with row swaps *)
+Theorem C07_det_perm : forall (R : Type) (RR : Ring R) (fdet : nat -> fm (R:=R) -> R), DetLaws fdet ->
+  forall n p, is_perm n p -> fdet n (fun i j => delta (p i) j) = perm_sign n p.
+Proof. exact (@fdet_perm). Qed.
+Print Assumptions C07_det_perm.
+
+(* 4. THE property, for every determinant function satisfying the interface, every commutative ring with involution,
+      every lawful pair of carriers, every algorithm choice and every valid tree (all structural rules, all base cases) *)
+Theorem C07_slogdet_det : forall (R : Type) (RR : Ring R) (CR : CRing R) (V L : Type) (D : sdom (R:=R) V L),
+  sdom_laws V L D -> forall fdet : nat -> fm (R:=R) -> R, DetLaws fdet ->
+  forall alg (e : sop (R:=R) L), valid V L D fdet alg e ->
+  ev D (slogdet D all_fixed alg e) = vof D (fdet (dim e) (den (to_op e))).
+Proof. exact (@slogdet_det_all). Qed.
+Print Assumptions C07_slogdet_det.
+
+(* 5. ... hence about mathcomp's \det, over every comRingType *)
+Theorem C07_slogdet_mxdet : forall (R : comRingType) (CR : @CRing R (mcRing R)) (V L : Type) (D : sdom (R:=R) V L),
+  @sdom_laws R (mcRing R) CR V L D -> forall alg (e : sop (R:=R) L), @valid R (mcRing R) CR V L D (mxdet R) alg e ->
+  ev D (@slogdet R (mcRing R) V L D all_fixed alg e) = vof D (mxdet R (dim e) (@den R (mcRing R) CR (to_op e))).
+Proof. exact (@slogdet_mxdet). Qed.
+Print Assumptions C07_slogdet_mxdet.
+
+(* 6. over every numFieldType with a norm-compatible involution (identity: real operators; conjC: complex):
+      sign * mag = \det,  |sign| = 1,  0 < mag   (multiplicative form: mag = exp(logabs)) *)
+Theorem C07_slogdet_numfield : forall (R : numFieldType) (cj : R -> R)
+  (cjD : forall x y, cj (x + y) = cj x + cj y) (cjM : forall x y, cj (x * y) = cj x * cj y) (cjK : forall x, cj (cj x) = x)
+  (cj_norm : forall x : R, `|cj x| = `|x|) (cj_real : forall x : R, cj `|x| = `|x|) (kabs ksgn : R -> R)
+  alg (e : sop (R:=R) R),
+  @valid R (mcRing R) (numCRing cjD cjM cjK cj_real) R R (numdom cjD cjM cjK cj_real kabs ksgn) (mxdet R) alg e ->
+  let s := fst (@slogdet R (mcRing R) R R (numdom cjD cjM cjK cj_real kabs ksgn) all_fixed alg e) in
+  let m := snd (@slogdet R (mcRing R) R R (numdom cjD cjM cjK cj_real kabs ksgn) all_fixed alg e) in
+  s * m = \det (\matrix_(i < dim e, j < dim e) @den R (mcRing R) (numCRing cjD cjM cjK cj_real) (to_op e) i j) /\ `|s| = 1 /\ 0 < m.
+Proof. exact (@slogdet_numfield). Qed.
+Print Assumptions C07_slogdet_numfield.
+
+(* 7. logdet returns the modulus of the determinant (multiplicative form): |det| < 1 iff logabs is negative *)
+Theorem C07_logdet_numfield : forall (R : numFieldType) (cj : R -> R)
+  (cjD : forall x y, cj (x + y) = cj x + cj y) (cjM : forall x y, cj (x * y) = cj x * cj y) (cjK : forall x, cj (cj x) = x)
+  (cj_norm : forall x : R, `|cj x| = `|x|) (cj_real : forall x : R, cj `|x| = `|x|) (kabs ksgn : R -> R)
+  alg (e : sop (R:=R) R),
+  @valid R (mcRing R) (numCRing cjD cjM cjK cj_real) R R (numdom cjD cjM cjK cj_real kabs ksgn) (mxdet R) alg e ->
+  @logdet R (mcRing R) R R (numdom cjD cjM cjK cj_real kabs ksgn) all_fixed alg e
+  = `|\det (\matrix_(i < dim e, j < dim e) @den R (mcRing R) (numCRing cjD cjM cjK cj_real) (to_op e) i j)|.
+Proof. exact (@logdet_numfield). Qed.
+Print Assumptions C07_logdet_numfield.
+
+(* 8. the exact instance that vm_compute runs in the correspondence check is covered by theorem 4 *)
+Theorem C07_exec_instance : forall fdet : nat -> fm (R:=qi) -> qi, DetLaws fdet ->
+  forall alg (e : sop (R:=qi) sd), valid sd sd qdom fdet alg e ->
+  sdmul (fst (slogdet qdom all_fixed alg e)) (snd (slogdet qdom all_fixed alg e)) = sdof (fdet (dim e) (den (to_op e))).
+Proof. exact slogdet_qdom. Qed.
+Print Assumptions C07_exec_instance.
+
+(* 9-12. with a recorded flag on (the pinned tree) the answer is not the determinant: concrete witnesses *)
+Theorem C07_scalar_slogdet_ignores_n_refuted : forall fdet : nat -> fm (R:=qi) -> qi, DetLaws fdet ->
+  valid sd sd qdom fdet AAuto w_scal /\
+  ev qdom (slogdet qdom (mkflags true false false) AAuto w_scal) <> vof qdom (fdet (dim w_scal) (den (to_op w_scal))).
+Proof. exact scalar_slogdet_ignores_n_refuted. Qed.
+Print Assumptions C07_scalar_slogdet_ignores_n_refuted.
+
+Theorem C07_perm_slogdet_ignores_parity_refuted : forall fdet : nat -> fm (R:=qi) -> qi, DetLaws fdet ->
+  valid sd sd qdom fdet AAuto w_perm /\
+  ev qdom (slogdet qdom (mkflags false true false) AAuto w_perm) <> vof qdom (fdet (dim w_perm) (den (to_op w_perm))).
+Proof. exact perm_slogdet_ignores_parity_refuted. Qed.
+Print Assumptions C07_perm_slogdet_ignores_parity_refuted.
+
+Theorem C07_dense_odd_pivot_refuted : forall fdet : nat -> fm (R:=qi) -> qi, DetLaws fdet ->
+  valid sd sd qdom fdet ALU w_swap /\
+  ev qdom (slogdet qdom (mkflags false true false) ALU w_swap) <> vof qdom (fdet (dim w_swap) (den (to_op w_swap))).
+Proof. exact dense_odd_pivot_refuted. Qed.
+Print Assumptions C07_dense_odd_pivot_refuted.
+
+Theorem C07_krylov_slogdet_abs_of_trace_refuted : forall fdet : nat -> fm (R:=qi) -> qi, DetLaws fdet ->
+  valid qi Z z2dom fdet AKry w_kry /\
+  ev z2dom (slogdet z2dom (mkflags false false true) AKry w_kry) <> vof z2dom (fdet (dim w_kry) (den (to_op w_kry))).
+Proof. exact krylov_slogdet_abs_of_trace_refuted. Qed.
+Print Assumptions C07_krylov_slogdet_abs_of_trace_refuted.
+
+(* the hypotheses are satisfiable: a nested BlockDiag / Kronecker / Permutation / Triangular / ScalarMul tree is valid for every algorithm *)
+Example C07_valid_example : forall (fdet : nat -> fm (R:=qi) -> qi) alg, valid sd sd qdom fdet alg w_ex.
+Proof. exact w_ex_valid. Qed.
+Print Assumptions C07_valid_example.
+(* the involutions of theorem 6 exist: identity on any numFieldType, conjugation on any numClosedFieldType *)
+Example C07_conj_example : forall C : numClosedFieldType, let cj := (fun x : C => x^*) in
+  (forall x y, cj (x + y) = cj x + cj y) /\ (forall x y, cj (x * y) = cj x * cj y) /\ (forall x, cj (cj x) = x) /\
+  (forall x, `|cj x| = `|x|) /\ (forall x : C, cj `|x| = `|x|).
+Proof. exact cj_conjC_ok. Qed.
+Print Assumptions C07_conj_example.
